@@ -103,6 +103,24 @@ pub open spec fn same_row(a: Node, b: Node) -> bool { (Node { _local_id: None, .
 pub open spec fn rows_from(b: Seq<NodeToInsert>, src: Seq<Node>) -> bool {
     forall|j: int| 0 <= j < b.len() ==> (#[trigger] b[j]).node is Some && exists|k: int| 0 <= k < src.len() && same_row(b[j].node->Some_0, #[trigger] src[k])
 }
+/// the wanted row (a delivered row that was requested and is not older than the version announced for it) is in the batch
+pub open spec fn wanted_in(w: Node, b: Seq<NodeToInsert>) -> bool { exists|j: int| 0 <= j < b.len() && (#[trigger] b[j]).node is Some && same_row(b[j].node->Some_0, w) }
+pub open spec fn all_wanted_in(ws: Seq<Node>, b: Seq<NodeToInsert>) -> bool { forall|k: int| 0 <= k < ws.len() ==> wanted_in(#[trigger] ws[k], b) }
+pub proof fn lemma_wanted_step(ws: Seq<Node>, b: Seq<NodeToInsert>, w: Node, x: NodeToInsert)
+    requires all_wanted_in(ws, b), x.node is Some, same_row(x.node->Some_0, w),
+    ensures all_wanted_in(ws.push(w), b.push(x)),
+{
+    let b2 = b.push(x);
+    assert forall|k: int| 0 <= k < ws.push(w).len() implies wanted_in(#[trigger] ws.push(w)[k], b2) by {
+        if k < ws.len() {
+            assert(wanted_in(ws[k], b));
+            let j = choose|j: int| 0 <= j < b.len() && (#[trigger] b[j]).node is Some && same_row(b[j].node->Some_0, ws[k]);
+            assert(b2[j] == b[j]);
+        } else {
+            assert(b2[b.len() as int] == x);
+        }
+    }
+}
 /// a batch built from the rows of `src` was handed to the database service and accepted (the `exists` is hidden in a spec function)
 pub open spec fn row_batch_handed(room_id: Uid, src: Seq<Node>) -> bool { exists|b: Seq<NodeToInsert>| #[trigger] rows_handed(room_id, b) && rows_from(b, src) }
 pub open spec fn all_row_batches_handed(room_id: Uid, batches: Seq<Seq<Node>>) -> bool { forall|i: int| 0 <= i < batches.len() ==> row_batch_handed(room_id, #[trigger] batches[i]) }
@@ -196,7 +214,7 @@ pub fn cut_collect_ids(remote_nodes: &mut HashSet<NodeIdentifier>, nodes: HashSe
 //@ attr #[verifier::loop_isolation(false)]
 //@ rewrite E3 "crate::Error" => "crate_error::Error" x*
 //@ cut "for node in nodes" => "cut_collect_ids(&mut remote_nodes, nodes);"
-//@ rewrite E21 "for mut node in nodes \{" => "for node0 in it: nodes invariant all_nodes_ok(it.seq()), all_rows_ok(nodes_to_insert@), all_rows_as_announced(nodes_to_insert@), rows_from(nodes_to_insert@, it.seq()), ingested ==> has_changes, { let mut node = node0;" x2
+//@ rewrite E21 "for mut node in nodes \{" => "for node0 in it: nodes invariant all_nodes_ok(it.seq()), all_rows_ok(nodes_to_insert@), all_rows_as_announced(nodes_to_insert@), rows_from(nodes_to_insert@, it.seq()), all_wanted_in(wanted, nodes_to_insert@), ingested ==> has_changes, { let mut node = node0;" x2
 //@ loop "while let Some(edge_deletion) = edge_deletion_recv.recv().await"
             invariant
                 // [whatever_was_ingested_so_far_is_a_change]{C18}
@@ -253,8 +271,14 @@ pub fn cut_collect_ids(remote_nodes: &mut HashSet<NodeIdentifier>, nodes: HashSe
         let ghost mut node_batches: Seq<Seq<NodeDeletionEntry>> = Seq::empty();
         let ghost mut ref_batches: Seq<(Uid, Seq<Edge>)> = Seq::empty();
         let ghost mut row_batches: Seq<Seq<Node>> = Seq::empty();
+        let ghost mut wanted: Seq<Node> = Seq::empty();
 //@ insert-each after-stmt ".verify_nodes(nodes)"
-                    proof { row_batches = row_batches.push(nodes@); }
+                    proof { row_batches = row_batches.push(nodes@); wanted = Seq::empty(); }
+//@ insert-each before-stmt "if !nti.is_older_than_announced(&node) {"
+                            let ghost wanted_before = wanted;
+                            proof { if !newer_v(nti.announced_mdate, nti.announced_signature@, node.mdate, node._signature@) { wanted = wanted.push(node); } }
+//@ insert-each after-stmt "nodes_to_insert.push(nti);"
+                                proof { lemma_wanted_step(wanted_before, b_before, it.seq()[it.index@ as int], x_pushed); }
 //@ insert-each after-stmt ".verify_edges(edges)"
                     proof { ref_batches = ref_batches.push((room_id, edges@)); }
 //@ insert after-stmt ".verify_edge_log(edge_deletion)"
@@ -282,9 +306,12 @@ pub fn cut_collect_ids(remote_nodes: &mut HashSet<NodeIdentifier>, nodes: HashSe
                             // [delivered_row_is_the_announced_version_or_newer]{C03,C11,C02} a row delivered by the remote side goes on to the database only if it is the version announced for it - the one the last-writer-wins rule and the deletion log were consulted for - or a newer one (F42)
                             assert(delivered_not_older(nti));
                             assert(same_row(nti.node->Some_0, it.seq()[it.index@ as int]));
+                            let ghost b_before = nodes_to_insert@; let ghost x_pushed = nti;
 //@ insert-each before-stmt ".add_nodes(room_id, nodes_to_insert)"
                     // [nodes_ingested_only_after_signature_check] rows reach the database only out of the signature verification service (the storage slot is set afterwards, it is not a signed field), and for the room being synchronised
                     assert(all_rows_ok(nodes_to_insert@));
+                    // [every_requested_row_not_older_than_announced_is_in_the_batch]{C03} every delivered row that was requested (its id was among those asked for) and is the announced version or a newer one is in the batch that goes to the database: none is dropped on the way
+                    assert(all_wanted_in(wanted, nodes_to_insert@));
 //@ insert-each before-stmt "discret_services.database.add_edges(room_id, edges)"
                     // [edges_ingested_only_after_signature_check] references reach the database only out of the signature verification service, and for the room being synchronised
                     assert(all_edges_ok(edges@));
